@@ -1,6 +1,6 @@
 from props import cfg
 
-CFG = cfg('C19', extract='Ex_C19', driver='c19',
+CFG = cfg('C19', refine=['Refine_keyring'], extract='Ex_C19', driver='c19',
           rule='universe of 8 Ed25519 keys (shared names / comments / e-mails, names with blanks, public + private halves of two keys, '
                '0-2 subkeys, two keys with equal creation time); after EVERY step the real keyring (alias layers in dict order, key table, '
                'pub/priv lists, `in` and `with key()` for ~110 identifiers incl. blank variants and strangers, fingerprints() for the 9 '
